@@ -274,7 +274,13 @@ func c09NearMiss(run *common.Run) {
 					n++
 				}
 			}
-			if n == 0 || res.Panic != "" || len(res.Errs) > 0 {
+			if res.Panic != "" || len(res.Errs) > 0 {
+				run.Report(common.Cex{Sig: fmt.Sprintf("nearmiss|site=%s|comment=control|code=crash", ctl.site),
+					Summary: fmt.Sprintf("analysis of the positive-control program (@%s at %s, %s) fails: panic=%q errs=%v", ctl.kw, ctl.site, cfg.Name, res.Panic, res.Errs),
+					Detail:  map[string]any{"program": p.Text(), "config": cfg.Name}})
+				continue
+			}
+			if n == 0 {
 				common.Fatalf("C09 positive control %s/@%s under %s gives %d %s diagnostics (panic=%q errs=%v): the would-be violations are not in the generated program",
 					ctl.site, ctl.kw, cfg.Name, n, c09Categories[ctl.kw], res.Panic, res.Errs)
 			}
